@@ -36,6 +36,14 @@ var (
 	depsDir = envOr("VERIF_DEPS", "/verif/.cache/deps")
 )
 
+// par is the number of worker processes run at a time (VERIF_PAR, default 16).
+func par() int {
+	if v, err := strconv.Atoi(os.Getenv("VERIF_PAR")); err == nil && v > 0 {
+		return v
+	}
+	return 16
+}
+
 func envOr(k, d string) string {
 	if v := os.Getenv(k); v != "" {
 		return v
@@ -512,7 +520,7 @@ func shrink(bin string, rep Replay, budget time.Duration) Replay {
 	try := func(cands []Replay) int { // returns index of the first candidate that still fails, -1 if none
 		res := make([]bool, len(cands))
 		var wg sync.WaitGroup
-		sem := make(chan struct{}, 16)
+		sem := make(chan struct{}, par())
 		for i := range cands {
 			if time.Now().After(deadline) {
 				break
@@ -748,7 +756,7 @@ func check(prop, tier, replayFile, onlyScen string, runsOverride int) int {
 		restarts  int
 		cut       bool
 		wg        sync.WaitGroup
-		sem       = make(chan struct{}, 16)
+		sem       = make(chan struct{}, par())
 		pending   = queue
 		crashSeen = map[string]int{}
 	)
@@ -1072,7 +1080,7 @@ func detTest(prop string, n int) int {
 			ref := map[uint64]string{}
 			var mu sync.Mutex
 			var wg sync.WaitGroup
-			sem := make(chan struct{}, 16)
+			sem := make(chan struct{}, par())
 			runSet := func(label string, ss []uint64) {
 				defer wg.Done()
 				defer func() { <-sem }()
